@@ -292,8 +292,19 @@ def path_programs(r, n):
     for i in range(40):
         deep = (deep, i2a(i)) if i % 3 else (i2a(i), deep)
     for _ in range(n):
-        nb = r.randrange(1, 45)
-        v = (1 << nb) | r.getrandbits(nb)
+        if r.random() < 0.3:
+            nb = r.randrange(1, 45)                      # arbitrary bits: mostly runs into an atom
+            v = (1 << nb) | r.getrandbits(nb)
+        else:
+            bits = []                                    # a walk that stays inside the tree
+            t = deep
+            while isinstance(t, tuple) and r.random() < 0.93:
+                b = r.getrandbits(1)
+                bits.append(b)
+                t = t[1] if b else t[0]
+            v = 1 << len(bits)
+            for i, b in enumerate(bits):
+                v |= b << i
         raw = v.to_bytes((v.bit_length() + 7) // 8, "big")
         P.append((b"\x00" * r.choice([0, 0, 1, 2]) + raw, deep))
     return [(gen.tt(p), gen.tt(e), "path") for p, e in P]
